@@ -19,6 +19,7 @@ structure State where
   cur : Option Server := none     -- the running server
   services : List Bytes := []
   started : Bool := false         -- some server was started already
+  listening : Bool := false       -- `Server.Start` was called on the running server (it listens; `Close` takes its `IsStarted` branch)
 
 def init : State := {}
 
@@ -182,13 +183,20 @@ def step (s : State) (toks : List String) : State × String :=
     | _, _ => (s, "bad-op")
   | ["stop"] =>
     match s.cur with
-    | some srv => ({ s.commit (closeOn s.sha s.dir srv) [] with cur := none }, "ok")
+    | some srv => ({ s.commit (closeOn s.sha s.dir srv) [] with cur := none, listening := false }, "ok")
+    | none => (s, "bad-op")
+  -- `listen`: `Server.Start` on the running (regular) server — router and websocket listen, `IsStarted` is set.
+  -- Nothing of the storage changes; the `Close` that follows (`if c.IsStarted { … }`, then the same calls) does to
+  -- the directory what the `Close` of a server that never listened does: `closeOn`
+  | ["listen"] =>
+    match s.cur with
+    | some srv => if srv.delDb || s.listening then (s, "bad-op") else ({ s with listening := true }, "ok")
     | none => (s, "bad-op")
   | ["crash"] =>
     -- the server process dies: no `closeDatabase` (a temporary-directory server's file stays), the directory is
     -- what the calls made of it
     match s.cur with
-    | some _ => ({ s with cur := none }, "ok")
+    | some _ => ({ s with cur := none, listening := false }, "ok")
     | none => (s, "bad-op")
   | ["mvold", i] =>
     -- what an older version of onet would have left: the server's file under the legacy name
